@@ -66,6 +66,8 @@ type c13Case struct {
 	Options [][]int `json:"client_options,omitempty"`
 	// Cluster: the client is created with DialCluster (one address) instead of Dial
 	Cluster bool `json:"dial_cluster,omitempty"`
+	// Default (client set = all of 1.0..1.4 only): no WithKmipVersions option at all: the library's default set
+	Default bool `json:"default_options,omitempty"`
 }
 
 // optionLayouts returns ways of passing the same set through WithKmipVersions (all equivalent per the option's contract:
@@ -200,7 +202,7 @@ func c13Run(c c13Case) (sig string, err error) {
 		srv.mu.Unlock()
 	}
 	var opts []kmipclient.Option
-	if len(c.Options) == 0 {
+	if len(c.Options) == 0 && !c.Default {
 		opts = append(opts, kmipclient.WithKmipVersions(append([]kmip.ProtocolVersion{}, clientSet...)...))
 	}
 	for _, l := range c.Options {
@@ -339,7 +341,7 @@ func c13Run(c c13Case) (sig string, err error) {
 func TestC13Negotiation(t *testing.T) {
 	const name = "TestC13Negotiation"
 	rec := evid.New("C13", name, "exhaustive: 31 non-empty client sets x 32 server sets x 6 server behaviours (conformant descending intersection, discovery unsupported, lists versions not offered, unordered list, empty list, the library's own BatchExecutor restricted to the set, also after an earlier client with another set has negotiated with the same executor) without enforcement, "+
-		"plus the same client set handed over through up to five other option layouts (descending, one WithKmipVersions option per version, two halves, highest first with a duplicate, rotated) against the conformant, unordered and library servers, plus clients created with DialCluster against the conformant, discovery-less and library servers, plus 31 x 32 x 5 enforced versions against the conformant server; each followed by two requests, a batch containing a Discover Versions item, and a clone; oracle: pure function of the configuration (highest common version / fallback to 1.0 / failure); "+
+		"plus the same client set handed over through up to five other option layouts (descending, one WithKmipVersions option per version, two halves, highest first with a duplicate, rotated) against the conformant, unordered and library servers, plus clients with default options (no version option at all) against every server, plus clients created with DialCluster against the conformant, discovery-less and library servers, plus 31 x 32 x 5 enforced versions against the conformant server; each followed by two requests, a batch containing a Discover Versions item, and a clone; oracle: pure function of the configuration (highest common version / fallback to 1.0 / failure); "+
 		"non-trivial = the intersection has >= 2 elements, or the server lists a version outside the client's set, or the list is unordered; distinct by case").Attach(t)
 	rec.Exhaustive(true)
 	if rp := evid.LoadReplay(name); rp != nil {
@@ -382,6 +384,16 @@ func TestC13Negotiation(t *testing.T) {
 			for _, prior := range []int{0b00110, 0b01010} {
 				if !run(c13Case{ClientMask: cm, ServerMask: sm, Behaviour: bLibraryExec, Enforced: -1, PriorMask: prior}) {
 					return
+				}
+			}
+			if cm == 31 {
+				// the default set, not given through any option (clients of one process share nothing)
+				for _, b := range behaviours {
+					for _, cluster := range []bool{false, true} {
+						if !run(c13Case{ClientMask: cm, ServerMask: sm, Behaviour: b, Enforced: -1, Default: true, Cluster: cluster}) {
+							return
+						}
+					}
 				}
 			}
 			// the other constructor: DialCluster negotiates like Dial
